@@ -4,6 +4,7 @@ set -e
 id=$1; lc=$(echo $id | tr 'C' 'c'); n=${id:1}
 w=/work/$id/verif
 rsync -a --delete --exclude '*.vo' --exclude '*.vok' --exclude '*.vos' --exclude '*.glob' --exclude '.*.aux' $w/coq/$id/ /verif/coq/$id/
+find /verif/coq/$id -name "*.v" -exec touch {} +
 cp $w/harness/$lc.py /verif/harness/
 [ -f $w/harness/tables/t$n.py ] && cp $w/harness/tables/t$n.py /verif/harness/tables/
 [ -f $w/findings/$id.json ] && cp $w/findings/$id.json /verif/findings/
